@@ -1011,8 +1011,10 @@ class ConfigInformation:
 
         # --- Submit the job
 
-        # Sets the init tasks
+        # Sets the init tasks (they are part of the full identifier: one that was
+        # cached before, when the task was already sealed, is no longer valid)
         self.init_tasks = init_tasks
+        self._full_identifier = None
 
         # Creates a new job
         self.job = self.xpmtype.task(
